@@ -35,6 +35,7 @@ std::vector<VariablePtr>::iterator AnalyserExternalVariable::AnalyserExternalVar
         auto component = owningComponent(v);
 
         return (component != nullptr)
+               && (model != nullptr)
                && (owningModel(v) == model)
                && (component->name() == componentName)
                && (v->name() == variableName);
